@@ -126,12 +126,23 @@ TMemVerdict ==
   /\ (Ev.st # "killed" => Ev.used < Ev.L)
   /\ Adv /\ UNCHANGED vars
 
+(* C06, soundness of the accounting: a program that holds memory alive through one kind of value (nested vararg lists,
+   tables, closures, strings, coroutines ...) reported Ev.acc KiB accounted to its context at its peak while the live Go
+   heap peaked at Ev.heap KiB above the baseline (sampled by the driver; it includes garbage not collected yet, at most
+   as much again with the default GC target).  The heap must be within a constant factor of the accounted memory. *)
+HeapFactor == 16
+HeapSlackKiB == 32768
+THeapVerdict ==
+  /\ Is("heapverdict") /\ Len(stack) = 1 /\ pan = "none"
+  /\ Ev.heap <= HeapFactor * Ev.acc + HeapSlackKiB
+  /\ Adv /\ UNCHANGED vars
+
 TReset ==
   /\ Is("reset") /\ Len(stack) = 1 /\ pan = "none"
   /\ stack' = <<RootCtx>> /\ frames' = <<>> /\ pan' = "none" /\ fail' = NoFail /\ last' = [op |-> "init"] /\ hist' = <<>> /\ clk' = clk /\ pv' = {}
   /\ Adv
 
-TNext == (Sync /\ l' = l) \/ (UnwindRelease /\ l' = l) \/ TVerdict \/ TMemVerdict \/ TPush \/ THost \/ TCpuLimit \/ TMemLimit \/ TExplained \/ TKill \/ TPopped \/ TPop \/ TReset
+TNext == (Sync /\ l' = l) \/ (UnwindRelease /\ l' = l) \/ TVerdict \/ TMemVerdict \/ THeapVerdict \/ TPush \/ THost \/ TCpuLimit \/ TMemLimit \/ TExplained \/ TKill \/ TPopped \/ TPop \/ TReset
 
 TSpec == TInit /\ [][TNext]_tvars
 
